@@ -11,6 +11,7 @@ import (
 	"fmt"
 	"math/big"
 	"runtime/debug"
+	"strings"
 	"time"
 
 	"github.com/btcsuite/btcd/btcec"
@@ -646,6 +647,112 @@ func checkTxs() {
 }
 
 // ---------------------------------------------------------------------------------------------
+// histories of one transaction OBJECT: the object memoises its sender, hash and size; re-signing
+// (SignTx / WithSignature) derives a new object from an old one. After every history of sender queries and
+// re-signings, the object must answer exactly like a copy of its own wire encoding that nobody has asked yet.
+
+func checkTxObjectHistories() {
+	to1 := common.BytesToAddress([]byte{0x11})
+	f := txFields{Nonce: 7, Price: big.NewInt(3), Gas: 21000, To: &to1, Amount: big.NewInt(1000), Payload: []byte{1, 2, 3}}
+	type sg struct {
+		name string
+		s    types.Signer
+	}
+	signers := []sg{{"homestead", types.HomesteadSigner{}}, {"chain1", types.NewChainIDSigner(big.NewInt(1))}, {"chain24", types.NewChainIDSigner(big.NewInt(24))}}
+	type op struct {
+		name string
+		q    int // >= 0: ask signers[q]
+		k, s int // otherwise: re-sign with keys[k] under signers[s]
+	}
+	var ops []op
+	for i, s := range signers {
+		ops = append(ops, op{"ask:" + s.name, i, 0, 0})
+	}
+	for k := 0; k < 2; k++ {
+		for i, s := range signers {
+			ops = append(ops, op{fmt.Sprintf("sign:k%d/%s", k, s.name), -1, k, i})
+		}
+	}
+	depth := 4
+	if r.Tier() == "thorough" {
+		depth = 5
+	}
+	// eval replays one history on a fresh object (an object cannot be copied without copying the memo under test) and
+	// judges its LAST operation, a query; the earlier queries were judged as the last operation of a shorter history.
+	eval := func(hist []int) {
+		obj := f.mk()
+		lastK, lastS := -1, -1
+		var names []string
+		for n, oi := range hist {
+			o := ops[oi]
+			names = append(names, o.name)
+			if o.q < 0 {
+				nx, err := types.SignTx(signers[o.s].s, obj, keys[o.k])
+				if err != nil {
+					panic(err)
+				}
+				obj, lastK, lastS = nx, o.k, o.s
+				continue
+			}
+			ga, gerr := types.Sender(signers[o.q].s, obj)
+			if n != len(hist)-1 {
+				continue
+			}
+			r.Add("evaluations", 1)
+			r.Add("object_histories", 1)
+			V, R, S := obj.RawSignatureValues()
+			fresh, err := rawTx(f, V, R, S)
+			if err != nil {
+				panic(err)
+			}
+			wa, werr := signers[o.q].s.Sender(fresh)
+			hs := strings.Join(names, ";")
+			cs := map[string]interface{}{"kind": "tx-object-history", "history": hs, "tx": f.String()}
+			cls := "signed-under-another-signer"
+			if lastS == o.q {
+				cls = "signed-under-this-signer"
+			} else if lastS < 0 {
+				cls = "unsigned"
+			}
+			r.Distinct("object_history_shapes", fmt.Sprintf("%s|last=%d/%d", o.name, lastK, lastS))
+			switch {
+			case (gerr == nil) != (werr == nil) || (gerr == nil && ga != wa):
+				r.Violation("C11|kind=tx-object-history|query="+cls+"|oracle=object-differs-from-its-wire-copy",
+					fmt.Sprintf("after [%s] the object answers (%s, %v); a fresh copy of its own encoding answers (%s, %v)", hs, ga.Hex(), gerr, wa.Hex(), werr), cs)
+			case lastS == o.q && (gerr != nil || ga != addrs[lastK]):
+				r.Violation("C11|kind=tx-object-history|query="+cls+"|oracle=sign-then-recover",
+					fmt.Sprintf("after [%s] Sender answers (%s, %v), the last signer is %s", hs, ga.Hex(), gerr, addrs[lastK].Hex()), cs)
+			case lastS > 0 && lastS != o.q && gerr == nil:
+				// a signature made for one chain id is accepted neither for another chain id nor as an unprotected one (an
+				// UNPROTECTED signature, 27/28, is accepted by every chain-id signer by design, like its wire copy)
+				r.Violation("C11|kind=tx-object-history|query="+cls+"|oracle=mutation-accepted",
+					fmt.Sprintf("after [%s] signer %s accepts a signature made under %s (sender %s)", hs, signers[o.q].name, signers[lastS].name, ga.Hex()), cs)
+			}
+			if obj.Hash() != fresh.Hash() {
+				r.Violation("C11|kind=tx-object-history|oracle=hash-differs-from-its-wire-copy",
+					fmt.Sprintf("after [%s] the object's hash is %s, the hash of its own encoding %s", hs, obj.Hash().Hex(), fresh.Hash().Hex()), cs)
+			}
+		}
+	}
+	// by ascending length, so the example kept for a signature is a shortest history
+	for d := 1; d <= depth; d++ {
+		var gen func(hist []int)
+		gen = func(hist []int) {
+			if len(hist) == d {
+				if ops[hist[d-1]].q >= 0 {
+					eval(hist)
+				}
+				return
+			}
+			for oi := range ops {
+				gen(append(append([]int{}, hist...), oi))
+			}
+		}
+		gen(nil)
+	}
+}
+
+// ---------------------------------------------------------------------------------------------
 // 65-byte strings offered as vote / proposal signatures
 
 func checkSigShapes() {
@@ -733,10 +840,14 @@ func main() {
 	checkVotes()
 	checkProposals()
 	checkTxs()
+	checkTxObjectHistories()
 	checkSigShapes()
 	r.Set("rule", "E3 full matrix: {prevote,precommit}x{block,nil} votes, proposals (pol 0/1), txs under Homestead and 3 chain-id signers x 3 keys x 3 signing chain ids; "+
 		"every single-field alternative from each field's boundary domain, every other signer / chain id, every cross-kind reuse, (V,R,S) boundary product; "+
-		"a case is non-trivial and distinct per (message kind, field, alternative) when the mutated content really differs from the signed content")
+		"a case is non-trivial and distinct per (message kind, field, alternative) when the mutated content really differs from the signed content; "+
+		"transaction-object histories: every sequence of up to 4 (thorough 5) operations {ask signer s, re-sign with key k under signer s} (3 signers, 2 keys) on one object: "+
+		"every answer equals the answer of a fresh copy of the object's own wire encoding (sender memo, hash memo), the last signer is recovered, a signature made for a chain id is accepted by no other signer")
+	r.Require(r.Get("object_histories") > 1000, "fewer than 1000 transaction-object histories ran")
 	r.Exhaustive(true)
 	r.Assume("secp256k1 / Keccak are sound; the mutation alphabets are the boundary values listed in DESIGN.md C11",
 		"signature lengths other than 65 bytes are outside C11's quantifier and are decided by C18",
